@@ -209,3 +209,13 @@ def active_dofs(K, tol=0.0):
     A = abs(sp.csr_matrix(K))
     s = np.asarray(A.sum(axis=0)).ravel()
     return np.where(s > tol)[0]
+
+
+def subinterval_amplification(d):
+    """The sub-interval tables evaluate P(xi2) - P(xi1) of an antiderivative in
+    power form; on a narrow interval the difference cancels and the relative
+    error of an entry grows like b/(y2-y1) (the tables themselves are judged in
+    C10 against the antiderivative's magnitude)."""
+    if 'y1' in d and 'y2' in d:
+        return max(1.0, d['b'] / max(d['y2'] - d['y1'], 1e-300))
+    return 1.0
